@@ -40,13 +40,15 @@ PROBES = ["remove_head_then_insert_before_tail", "reorder_the_only_element",
           "reorder_head_tail_adjacent", "delete_then_reinsert_in_other_case",
           "copy_then_diverge", "failing_op_keyerror", "failing_op_valueerror_self_reorder",
           "failing_op_invalid_value", "gc_step", "reparsed_handle", "sort_custom_key",
-          "clear_then_reuse", "step_without_observation", "sort_key_with_ties"]
+          "clear_then_reuse", "step_without_observation", "sort_key_with_ties",
+          "sort_key_consults_the_mapping", "quiet_observer"]
 
 NAMES = [["Package", "package", "PACKAGE"], ["Version", "version", "VERSION"],
          ["Depends", "depends", "DePeNdS"], ["X-A", "x-a", "X-a"], ["Zeta", "zeta", "ZETA"],
          ["alpha", "Alpha", "ALPHA"]]
 VALUES = ["1", "foo", "1.0-1", "a, b (>= 1)", "", "x y", "multi\n line2", "\n only\n cont",
-          "ünï", "v#1", "long value with several words"]
+          "ünï", "v#1", "long value with several words",
+          "big " + "0123456789abcdef" * 600]          # beyond one I/O buffer
 BADVALUES = ["ends\n", "blank\n\n line", "nospace\nline2"]
 SORTKEYS = {"len": lambda x: (len(x), x.lower()),
             "rev": lambda x: x.lower()[::-1],
@@ -103,11 +105,15 @@ def generate(seed, run, tier):
         elif k in ("order_before", "order_after"):
             st["k"], st["ref"] = _key(rq), _key(rq)
         elif k == "sort":
-            st["key"] = rq.choice([None, None, "len", "rev", "neg", "orig", "lenonly", "first", "const"])
+            st["key"] = rq.choice([None, None, "len", "rev", "neg", "orig", "lenonly", "first", "const",
+                                    "byvalue"])
         elif k == "update":
             st["items"] = [[_key(rq), rq.choice(VALUES)] for _ in range(rq.randint(1, 3))]
         steps.append(st)
-    return {"world": {"start": start, "items": items}, "trace": steps}
+    return {"world": {"start": start, "items": items,
+                      # a client that only ever uses the spelling it stored, and never asks
+                      # for keys that are not there (what it looks at is part of the schedule)
+                      "quiet_observer": rs.random() < 0.25}, "trace": steps}
 
 
 def describe(case):
@@ -163,7 +169,7 @@ def _dedupe(items):
 
 # --------------------------------------------------------------------------- execution
 
-def _check_handle(d, m, hi, si, op):
+def _check_handle(d, m, hi, si, op, quiet=False):
     where = {"step": si, "handle": hi}
     try:
         keys = list(d)
@@ -180,10 +186,23 @@ def _check_handle(d, m, hi, si, op):
         where.update(got=n, want=len(want))
         raise Violation("len-differs", op, where)
     if dump != m.dump():
-        where.update(got=dump, want=m.dump())
+        where.update(got=dump[:2000], want=m.dump()[:2000])
         raise Violation("dump-differs", op, where)
+    if (si + hi) % 3 == 0:
+        # the same text through a file object, binary and text mode
+        import io
+        bfd, tfd = io.BytesIO(), io.StringIO()
+        try:
+            d.dump(bfd)
+            d.dump(tfd, text_mode=True)
+        except Exception as e:   # pylint: disable=broad-except
+            where["error"] = repr(e)
+            raise Violation("observation-raised", op, where)
+        if bfd.getvalue() != dump.encode("utf-8") or tfd.getvalue() != dump:
+            where.update(got=bfd.getvalue()[:300], want=dump[:300])
+            raise Violation("dump-differs", op, where)
     for lower, sp, v in m.rows:
-        for variant in (sp, lower, lower.upper()):
+        for variant in ((sp,) if quiet else (sp, lower, lower.upper())):
             try:
                 got = d[variant]
             except Exception as e:   # pylint: disable=broad-except
@@ -193,7 +212,7 @@ def _check_handle(d, m, hi, si, op):
                 where.update(key=variant, got=got, want=v, contains=variant in d)
                 raise Violation("value-or-membership-differs", op, where)
     present = set(r[0] for r in m.rows)
-    for fam in NAMES:
+    for fam in ([] if quiet else NAMES):
         if fam[0].lower() not in present:
             if fam[1] in d:
                 where.update(key=fam[1])
@@ -234,6 +253,9 @@ def execute(case):
         out.probe("reparsed_handle")
     sut = [d0]
     model = [m0]
+    quiet = bool(w.get("quiet_observer"))
+    if quiet:
+        out.probe("quiet_observer")
     inter = []
     reorders = failures = 0
     prev_op = None
@@ -242,7 +264,7 @@ def execute(case):
     gc.disable()
     try:
         for hi in range(len(sut)):
-            _check_handle(sut[hi], model[hi], hi, -1, "start")
+            _check_handle(sut[hi], model[hi], hi, -1, "start", quiet)
         for si, st in enumerate(case["trace"]):
             op = st["op"]
             if op == "gc":
@@ -350,6 +372,12 @@ def execute(case):
                     if keyname is None:
                         m.rows.sort(key=lambda r: r[1].lower())
                         call = d.sort_fields
+                    elif keyname == "byvalue":
+                        # a key function that consults the mapping it sorts
+                        vals = dict((r[0], r[2]) for r in m.rows)
+                        m.rows.sort(key=lambda r: vals[r[0]])
+                        out.probe("sort_key_consults_the_mapping")
+                        call = lambda: d.sort_fields(key=lambda n: d[n])
                     else:
                         f = SORTKEYS[keyname]
                         m.rows.sort(key=lambda r: f(r[1]))
@@ -397,12 +425,12 @@ def execute(case):
             prev_op = op
             if st.get("observe", True):
                 for hi in range(len(sut)):
-                    _check_handle(sut[hi], model[hi], hi, si, op)
+                    _check_handle(sut[hi], model[hi], hi, si, op, quiet)
             else:
                 out.probe("step_without_observation")
             out.states.add(stable_hash([m.rows for m in model]))
         for hi in range(len(sut)):
-            _check_handle(sut[hi], model[hi], hi, len(case["trace"]), "end")
+            _check_handle(sut[hi], model[hi], hi, len(case["trace"]), "end", quiet)
     finally:
         if gc_was:
             gc.enable()
